@@ -22,6 +22,7 @@ import (
 )
 
 type rw struct {
+	netRewritten   bool
 	sharedLoopVars bool // the package's go directive is < 1.22
 	timeRewritten  bool
 	fset           *token.FileSet
@@ -78,6 +79,9 @@ func main() {
 			}
 			if p == "time" && r.timeRewritten {
 				f.Decls = append(f.Decls, dummyUse("time", "Now"))
+			}
+			if p == "net" && r.netRewritten {
+				f.Decls = append(f.Decls, dummyUse("net", "JoinHostPort"))
 			}
 		}
 		var buf bytes.Buffer
@@ -216,12 +220,8 @@ func (r *rw) isSyncType(e *ast.SelectorExpr) bool {
 		return false
 	}
 	switch e.Sel.Name {
-	case "Mutex", "Once", "WaitGroup", "RWMutex":
+	case "Mutex", "Once", "WaitGroup", "RWMutex", "Cond", "NewCond":
 		return true
-	case "Cond", "Map", "Pool":
-		if e.Sel.Name == "Cond" {
-			die(fmt.Errorf("%s: sync.Cond is not supported by the instrumenter", r.fset.Position(e.Pos())))
-		}
 	}
 	return false
 }
@@ -269,6 +269,27 @@ func (r *rw) expr(e ast.Expr) ast.Expr {
 		return x
 	case *ast.CallExpr:
 		if se, ok := x.Fun.(*ast.SelectorExpr); ok {
+			if s := r.info.Selections[se]; s != nil && s.Obj().Name() == "Dial" &&
+				(s.Recv().String() == "*net.Dialer" || s.Recv().String() == "net.Dialer") {
+				args := []ast.Expr{r.site("dial", x.Pos()), r.expr(se.X)}
+				if s.Recv().String() == "net.Dialer" {
+					args[1] = &ast.UnaryExpr{Op: token.AND, X: args[1]}
+				}
+				for _, a := range x.Args {
+					args = append(args, r.expr(a))
+				}
+				return &ast.CallExpr{Fun: sel("simrt", "DialerDial"), Args: args}
+			}
+			if id, ok := se.X.(*ast.Ident); ok {
+				if pn, ok := r.info.Uses[id].(*types.PkgName); ok && pn.Imported().Path() == "net" && (se.Sel.Name == "Dial" || se.Sel.Name == "DialTimeout") {
+					args := []ast.Expr{r.site("dial", x.Pos())}
+					for _, a := range x.Args {
+						args = append(args, r.expr(a))
+					}
+					r.netRewritten = true
+					return &ast.CallExpr{Fun: sel("simrt", se.Sel.Name), Args: args}
+				}
+			}
 			if s := r.info.Selections[se]; s != nil && s.Obj().Name() == "DialContext" &&
 				s.Recv().String() == "*net.Dialer" {
 				args := []ast.Expr{r.site("dial", x.Pos()), r.expr(se.X)}
@@ -297,7 +318,7 @@ func (r *rw) expr(e ast.Expr) ast.Expr {
 				}
 				if pn, ok := r.info.Uses[id].(*types.PkgName); ok && pn.Imported().Path() == "sync" {
 					switch se.Sel.Name {
-					case "NewCond", "OnceFunc", "OnceValue", "OnceValues":
+					case "OnceFunc", "OnceValue", "OnceValues":
 						die(fmt.Errorf("%s: sync.%s is not supported by the instrumenter", r.fset.Position(x.Pos()), se.Sel.Name))
 					}
 				}
@@ -308,12 +329,13 @@ func (r *rw) expr(e ast.Expr) ast.Expr {
 				}
 			}
 		}
+		callPos := x.Pos()
 		x.Fun = r.expr(x.Fun)
 		for i := range x.Args {
 			x.Args[i] = r.expr(x.Args[i])
 		}
 		if durArg >= 0 && len(x.Args) > durArg {
-			x.Args[durArg] = call(sel("simrt", "D"), r.site("timer", x.Pos()), x.Args[durArg])
+			x.Args[durArg] = call(sel("simrt", "D"), r.site("timer", callPos), x.Args[durArg])
 		}
 		return x
 	case *ast.FuncLit:
